@@ -28,6 +28,34 @@ def gen_stream(rng, nmax):
             a, b = rng.choice([(b"x,y", b"z"), (b"x", b"y,z"), (b"x", b"z"), (b"x,y", b"y,z")])
             recs.append([(b"a", a), (b"b", b), (b"c", rng.choice(VALS[1:5]))])
         return recs
+    if rng.random() < 0.05:
+        # records whose "k=v,k=v" rendering (OFS "," OPS "=", whatever the I/O separators are) coincides although the
+        # records differ: a value holds the text ",<name>=<value>" that is two fields in another record
+        base = [(k, rng.choice([b"1", b"2", b"3", b"x"])) for k in KEYS[:rng.randint(2, 4)]]
+        for _ in range(max(n, 2)):
+            r, out = list(base), []
+            if rng.random() < 0.4:
+                j = rng.randrange(len(r))
+                r[j] = (r[j][0], rng.choice([b"1", b"2"]))
+            i = 0
+            while i < len(r):
+                k, v = r[i]
+                while i + 1 < len(r) and rng.random() < 0.4:
+                    i += 1
+                    v = v + b"," + r[i][0] + b"=" + r[i][1]
+                out.append((k, v))
+                i += 1
+            recs.append(out)
+        return recs
+    if rng.random() < 0.05:
+        # the same values under different field names (uniq -x / count-distinct -x: the names are part of the group)
+        two = rng.sample(VALS[1:8], 2)
+        for _ in range(max(n, 2)):
+            ks = [b"a"] + rng.sample([b"x", b"y", b"b", b"c"], rng.randint(1, 2))
+            if rng.random() < 0.3:
+                ks = ks[::-1]
+            recs.append([(k, rng.choice(two)) for k in ks])
+        return recs
     nvals = rng.choice([2, 3, 5, len(VALS)])
     vals = rng.sample(VALS, nvals)
     for _ in range(n):
@@ -114,7 +142,9 @@ def run_verbs(ctx, reqs, seed=7):
 
 
 def mlr(ctx, args, recs):
-    st, out, err = mlr_run(ctx, ["--seed", "7"] + IOFLAGS + args, enc(recs), timeout=30)
+    st, out, err = mlr_run(ctx, ["--seed", "7"] + IOFLAGS + args, enc(recs), timeout=120)
+    if st == "hang":            # a loaded machine, not a hang, until a long timeout says otherwise (none of these verbs loops)
+        st, out, err = mlr_run(ctx, ["--seed", "7"] + IOFLAGS + args, enc(recs), timeout=900)
     return st, dec(out), err
 
 
@@ -205,7 +235,95 @@ def ref(verb, zs, ss, inp, keyf=gkey):
             if r not in out:
                 out.append(r)
         return out
+    if verb in (17, 18, 19):
+        inv, fs, oname = zs[0], ss[0], ss[1][0]
+        seen = {}
+        for r in inp:
+            k = ukey(inv, fs, r)
+            if k is None:
+                continue
+            if k not in seen:
+                seen[k] = [0, list(dict(k).items())]
+            seen[k][0] += 1
+        if verb == 17:
+            return [p for _, p in seen.values()]
+        if verb == 19:
+            return [[(b"count", str(len(seen)).encode())]]
+        return [list(dict(p + [(oname, str(c).encode())]).items()) for c, p in seen.values()]
+    if verb in (20, 21):
+        oname = ss[1][0]
+        firsts, counts = [], []
+        for r in inp:
+            if r in firsts:
+                counts[firsts.index(r)] += 1
+            else:
+                firsts.append(r)
+                counts.append(1)
+        if verb == 21:
+            return [[(oname, str(len(firsts)).encode())]]
+        return [([(oname, str(c).encode())] + r) if oname not in dict(r) else [(a, str(c).encode() if a == oname else b) for a, b in r]
+                for r, c in zip(firsts, counts)]
+    if verb == 22:
+        inv, fs = zs[0], ss[0]
+        m = {}
+        for r in inp:
+            d = dict(r)
+            for f in ([k for k, _ in r if k not in fs] if inv else fs):
+                cm = m.setdefault(f, {})
+                if f in d:
+                    cm[d[f]] = cm.get(d[f], 0) + 1
+        return [[(b"field", f), (b"value", v), (b"count", str(c).encode())] for f, cm in m.items() for v, c in cm.items()]
     return None
+
+
+def int_norm(v):
+    try:
+        return str(int(v.decode("latin1"), 0)).encode()
+    except ValueError:
+        return v
+
+
+def int_spelling_collision(inp):
+    """two different records that differ only in how an integer is spelled (0x1 / 1): uniq -a keys its map by the JSON
+    rendering of the record, which prints both as 1"""
+    seen = {}
+    for r in inp:
+        k = tuple((a, int_norm(b)) for a, b in r)
+        if k in seen and seen[k] != r:
+            return True
+        seen.setdefault(k, r)
+    return False
+
+
+def ukey(inv, fs, r):
+    """what a group of uniq / count-distinct is in the documentation: the values of the named fields; with -x the
+    record's other fields (names and values)"""
+    d = dict(r)
+    ns = [k for k, _ in r if k not in fs] if inv else fs
+    if any(f not in d for f in ns):
+        return None
+    return tuple((f, d[f]) for f in ns)
+
+
+def ujoined(inv, fs, r):
+    k = ukey(inv, fs, r)
+    if k is None:
+        return None
+    j = b",".join(v for _, v in k)
+    return b",".join(f for f, _ in k) + b";" + j if inv else j
+
+
+def uniq_collision(inv, fs, inp):
+    seen = {}
+    for r in inp:
+        k = ukey(inv, fs, r)
+        if k is not None:
+            j = ujoined(inv, fs, r)
+            k = tuple(v for _, v in k) if not inv else k
+            if j in seen and seen[j] != k:
+                return True
+            seen.setdefault(j, k)
+    return False
 
 
 def is_subseq(a, b):
@@ -243,7 +361,7 @@ def gen_cases(ctx):
         inp = gen_stream(rng, nmax)
         n = len(inp)
         v = rng.choice(["head", "head", "head", "tail", "tail", "tail", "decimate", "decimate", "tac", "group-by", "group-by", "group-like",
-                        "nothing", "skip", "uniq", "cat", "cat", "grep", "having", "having", "shuffle", "bootstrap", "sample"])
+                        "nothing", "skip", "uniq", "uniq-a", "uniq-g", "uniq-g", "uniq-g", "cat", "cat", "grep", "having", "having", "shuffle", "bootstrap", "sample"])
         c = None
         if v == "head":
             k = ks_for(rng, n) * rng.choice([1, 1, -1])
@@ -277,6 +395,33 @@ def gen_cases(ctx):
             c = (11, [], [], ["skip-trivial-records"])
         elif v == "uniq":
             c = (12, [], [], ["uniq", "-a"])
+        elif v == "uniq-a":
+            mode = rng.choice(["c", "n", "c", "n", "a"])
+            oname = rng.choice([b"count", b"count", b"n", b"a", b"b"])
+            oargs = [] if oname == b"count" else ["-o", oname.decode()]
+            c = {"a": (12, [], [], ["uniq", "-a"]), "c": (20, [0], [[], [oname]], ["uniq", "-a", "-c"] + oargs),
+                 "n": (21, [0], [[], [oname]], ["uniq", "-a", "-n"] + oargs)}[mode]
+        elif v == "uniq-g":
+            inv = rng.random() < 0.5
+            fs = rng.choice([[b"a"], [b"b"], [b"a", b"b"], [b"c"], [b"x"], [b"nosuch"], [b"a", b"b", b"c"], [b"b", b"x", b"y"]]) if inv else \
+                rng.choice([pick_fs(rng), pick_fs(rng), [b"a", b"a"], [b"b", b"a", b"b"]])
+            flag = "-x" if inv else rng.choice(["-g", "-f"])
+            g = b",".join(fs).decode()
+            mode = rng.choice(["g", "g", "c", "c", "cd", "n", "cdn", "u"])
+            oname = rng.choice([b"count", b"count", b"n", b"a", b"b"]) if mode in ("c", "cd", "cdn") else b"count"
+            oargs = [] if oname == b"count" else ["-o", oname.decode()]
+            if mode == "g":
+                c = (17, [int(inv)], [fs, [oname]], ["uniq", flag, g])
+            elif mode == "c":
+                c = (18, [int(inv)], [fs, [oname]], ["uniq", flag, g, "-c"] + oargs)
+            elif mode == "cd":
+                c = (18, [int(inv)], [fs, [oname]], ["count-distinct", flag, g] + oargs)
+            elif mode == "n":
+                c = (19, [int(inv)], [fs, [oname]], ["uniq", flag, g, "-n"] + (["-c"] if rng.random() < 0.3 else []))
+            elif mode == "cdn":
+                c = (19, [int(inv)], [fs, [oname]], ["count-distinct", flag, g, "-n"] + oargs)
+            else:
+                c = (22, [int(inv)], [fs, [oname]], ["count-distinct", flag, g, "-u"])
         elif v == "cat":
             mode = rng.choice(["plain", "n", "N", "ng", "Ng"])
             name = b"n" if mode in ("n", "ng") else rng.choice([b"idx", b"a", b"count"])
@@ -372,6 +517,10 @@ def oracle(ctx, verb, zs, ss, args, inp, out):
             "case": {"verb": verb, "zs": zs, "ss": [[b.decode("latin1") for b in x] for x in ss], "args": args}}
     fs = ss[0] if ss and verb in (1, 2, 3, 8, 16) else (ss[1] if verb == 13 else [])
     cls = "grouping-key-comma-collision" if fs and has_collision(fs, inp) else "other"
+    if verb in (17, 18, 19) and uniq_collision(zs[0], ss[0], inp):
+        cls = "grouping-key-comma-collision"
+    if verb in (12, 20, 21) and int_spelling_collision(inp):
+        cls = "uniq-a-int-spellings-merged"
     if exp is not None:
         if exp != out:
             return dict(base, expected=show(exp), **{"class": cls}, law="documented output")
@@ -442,7 +591,7 @@ def run(ctx):
                                "regex library abstracted to a matcher parameter; literal patterns in the correspondence"]
     ctx.assumptions = ["uniq -a: the JSON text used as map key determines the record", "random draws are an arbitrary oracle list in the model (at least one draw per record for sample)"]
     forbidden_gate(ctx, ["Base", "C11"])
-    ok, why = check_props(ctx, "C11/Props.v", ["C11/Harness.vo", "C11/Proofs.vo", "C11/Proofs2.vo", "C11/CheckerProofs.vo", "C11/SampleProofs.vo"])
+    ok, why = check_props(ctx, "C11/Props.v", ["C11/Harness.vo", "C11/Proofs.vo", "C11/Proofs2.vo", "C11/CheckerProofs.vo", "C11/SampleProofs.vo", "C11/UniqProofs.vo", "C11/ChainProofs.vo"])
     cases = gen_cases(ctx)
     fcases = gen_filter_cases(ctx)
     case_nrs = [gen_nrs(ctx.rng, len(c[4])) for c in cases]
@@ -507,6 +656,8 @@ def run(ctx):
             ctx.sample({"argv": meta[i][3], "input": show(meta[i][4]), "observed": show(meta[i][5])})
     count_identities(ctx, oracle_bad)
     finding_probes(ctx, oracle_bad)
+    regression_probes(ctx, oracle_bad)
+    finding_probe_uniq_a(ctx, oracle_bad)
     # ---- verdict
     if not ok:
         if oracle_bad:
@@ -655,6 +806,31 @@ def finding_probes(ctx, oracle_bad):
                                "law": "per group: records with different group-by values are in different groups", "class": "grouping-key-comma-collision"})
 
 
+def finding_probe_uniq_a(ctx, oracle_bad):
+    recs = [[(b"a", b"0x1"), (b"b", b"2")], [(b"a", b"1"), (b"b", b"2")]]
+    for args, want in ((["uniq", "-a"], recs), (["uniq", "-a", "-n"], [[(b"count", b"2")]])):
+        st, out, err = run_verbs(ctx, [(args, recs)])[0]
+        ctx.count(("finding-probe", args))
+        if st != 0 or out != want:
+            oracle_bad.append({"argv": ["mlr"] + IOFLAGS + args, "input": show(recs), "observed": show(out), "expected": show(want),
+                               "law": "uniq -a prints the first occurrence of every distinct record", "class": "uniq-a-int-spellings-merged"})
+
+
+def regression_probes(ctx, oracle_bad):
+    """witnesses of repaired defects: a regression is a plain VIOLATION"""
+    recs = [[(b"a", b"1"), (b"x", b"3")], [(b"a", b"2"), (b"y", b"3")], [(b"a", b"3"), (b"x", b"3")]]
+    x3, y3 = [(b"x", b"3")], [(b"y", b"3")]
+    for args, want in ((["uniq", "-x", "a"], [x3, y3]), (["uniq", "-x", "a", "-c"], [x3 + [(b"count", b"2")], y3 + [(b"count", b"1")]]),
+                       (["count-distinct", "-x", "a"], [x3 + [(b"count", b"2")], y3 + [(b"count", b"1")]]),
+                       (["uniq", "-x", "a", "-n"], [[(b"count", b"2")]]), (["count-distinct", "-x", "a", "-n"], [[(b"count", b"2")]])):
+        st, out, err = run_verbs(ctx, [(args, recs)])[0]
+        ctx.count(("regression-probe", args))
+        if st != 0 or out != want:
+            oracle_bad.append({"argv": ["mlr"] + IOFLAGS + args, "input": show(recs), "observed": show(out), "expected": show(want),
+                               "law": "uniq/count-distinct -x: records with different remaining field names are different groups (repaired by 30bef5caa)",
+                               "class": "uniq-x-field-names-merged"})
+
+
 def replay(ctx, path):
     obj = json.loads(Path(path).read_text())
     argv = obj.get("argv")
@@ -678,7 +854,7 @@ def replay(ctx, path):
         if v:
             ctx.violation(dict(obj, replayed=True, observed=show(y)))
         return
-    st, out, err = mlr_run(ctx, ["--seed", "7"] + argv[1:], enc(inp), timeout=30)
+    st, out, err = mlr_run(ctx, ["--seed", "7"] + argv[1:], enc(inp), timeout=300)
     got = show(dec(out))
     print("replay: argv=%s\n input=%s\n observed=%s\n previously=%s" % (argv, obj["input"], got, obj.get("observed")))
     ctx.count(("replay", argv, obj["input"]))
